@@ -269,12 +269,19 @@ def judge(work, defs_path, records, module="ApiTrace", nshards=None, timeout=300
         rej = tlc_printed_json(out, "REJECT")
         for r in rej:
             r["line"] = sh[r["l"] - 1]
+        st["classes"] = summ[0].get("classes", {})
         return rej, st
 
     with ThreadPoolExecutor(max_workers=8) as ex:
         results = list(ex.map(one, enumerate(shards)))
     rejections = [r for rej, _ in results for r in rej]
-    stats = {"lines": len(records), "shards": len(shards),
+    classes = {}
+    for _, st in results:
+        cl = st.get("classes", {})
+        if isinstance(cl, dict):
+            for k, v in cl.items():
+                classes[k] = classes.get(k, 0) + v
+    stats = {"lines": len(records), "shards": len(shards), "classes": classes,
              "states": sum(st.get("distinct", 0) for _, st in results),
              "transitions": sum(st.get("generated", 0) for _, st in results)}
     return rejections, stats
@@ -320,3 +327,40 @@ def write_evidence(prop, tier, seed, coverage, wall, violations, assumptions, le
 
 def stable_hash(obj):
     return hashlib.sha1(json.dumps(obj, sort_keys=True).encode()).hexdigest()[:12]
+
+
+# ---------------------------------------------------------------------------------------
+# messages from the reference encoder (spec/MsgGen.tla)
+# ---------------------------------------------------------------------------------------
+def gen_messages(work, defs_path, cases, timeout=1800):
+    """cases: list of {cid, w, val, ord, trail, mut}; returns ({cid: [bytes, ...]}, tlc stats)"""
+    d = work.sub("msggen")
+    cp = os.path.join(d, "cases.ndjson")
+    op = os.path.join(d, "msgs.ndjson")
+    with open(cp, "w") as fh:
+        for c in cases:
+            fh.write(json.dumps(c, separators=(",", ":")) + "\n")
+    out, st = tlc(d, "MsgGen", "INIT Init\nNEXT Next\nPOSTCONDITION Emit\nCHECK_DEADLOCK FALSE\n",
+                  env={"VERIF_DEFS": defs_path, "VERIF_CASES": cp, "VERIF_OUT": op}, workers=1,
+                  timeout=timeout, heap="6g")
+    if st.get("exit") != 0 or not os.path.exists(op):
+        keep = os.path.join(VERIF, "work", "last-msggen-failure.txt")
+        with open(keep, "w") as fh:
+            fh.write(out[-20000:])
+        raise MachineryError("MsgGen failed (TLC exit %s); see %s\n%s" % (st.get("exit"), keep, out[-1500:]))
+    res = {}
+    with open(op) as fh:
+        for ln in fh:
+            ln = ln.strip()
+            if ln:
+                r = json.loads(ln)
+                res[r["cid"]] = r["msgs"]
+    return res, st
+
+
+def write_defs(work, defs):
+    d = work.sub("defs")
+    p = os.path.join(d, "defs.json")
+    with open(p, "w") as fh:
+        json.dump(defs, fh)
+    return p
